@@ -307,11 +307,12 @@ theorem contains_limits_spec (n : Node) (xs : List Json) (hxs : ∀ x, x ∈ xs 
     {r9 : Spec.R} (h9 : Spec.kwContains sub n (.arr xs) = some r9) :
     ∃ a' : Anns, (∀ e9, r9 = some e9 → Ext (.arr xs) anns a' e9) ∧
       ∀ (K : Anns → Res Anns),
-        Res.bind (bContains rec stack n (ofJsonList xs) anns)
-            (fun p => Res.bind (bArrayLimits n (ofJsonList xs) p.2) fun _ => K p.1)
+        Res.bind (bContains .d2020 rec stack n (ofJsonList xs) anns)
+            (fun p => Res.bind (bArrayLimits .d2020 n (ofJsonList xs) p.2) fun _ => K p.1)
           = if (r9.isSome && itemsLimOk n xs.length) = true then K a' else .err := by
   unfold Spec.kwContains at h9
   unfold bContains bArrayLimits itemsLimOk
+  simp only [beq_d2020_d7, beq_d2020_d2020, Bool.false_or, Bool.true_and]
   have hlen : (ofJsonList xs).length = xs.length := by rw [ofJsonList_eq_wrap, List.length_map]
   rw [hlen]
   cases hc : n.contains with
@@ -362,9 +363,10 @@ theorem contains_limits_spec (n : Node) (xs : List Json) (hxs : ∀ x, x ∈ xs 
 theorem bUnevaluatedItems_blk (n : Node) (xs : List Json) (hxs : ∀ x, x ∈ xs → Json.WF x = true) (anns : Anns)
     (ev : Spec.Ev) (hm : ∀ i, i < xs.length → γitem anns i = ev.items.contains i) {r : Spec.R}
     (h : Spec.kwUnevaluatedItems sub n (.arr xs) ev = some r) :
-    Blk (.arr xs) anns r (bUnevaluatedItems rec stack n (ofJsonList xs) anns) := by
+    Blk (.arr xs) anns r (bUnevaluatedItems .d2020 rec stack n (ofJsonList xs) anns) := by
   unfold Spec.kwUnevaluatedItems at h
   unfold bUnevaluatedItems
+  simp only [beq_d2020_d2020, if_true]
   cases hu : n.unevaluatedItems with
   | none => simp only [hu, Option.some.injEq] at h; subst h; exact Blk_ok _ anns
   | some t =>
@@ -426,23 +428,23 @@ theorem bUnevaluatedItems_blk (n : Node) (xs : List Json) (hxs : ∀ x, x ∈ xs
 theorem bArray_spec (env : VEnv) (hwf : EnvWF env) (n : Node) (xs : List Json)
     (hxs : Json.WF (.arr xs) = true) (anns : Anns)
     {r8 r9 : Spec.R} (h8 : Spec.kwItems (specEnvOf env) sub n (.arr xs) = some r8)
-    (h9 : Spec.kwContains sub n (.arr xs) = some r9) :
+    (h9 : Spec.kwContains sub (Spec.vocab env.draft n) (.arr xs) = some r9) :
     (conj2 r8 r9 = none ∨ Spec.arrayLimitsOk n (.arr xs) = false →
       bArray env rec stack n (ofJson (.arr xs)) anns = .err) ∧
     (∀ e89, conj2 r8 r9 = some e89 → Spec.arrayLimitsOk n (.arr xs) = true →
       ∀ ev, AnnsMatch (.arr xs) anns ev →
       ∀ ev' ru, (∀ i, i < xs.length → ev'.items.contains i = (ev.union e89).items.contains i) →
-        Spec.kwUnevaluatedItems sub n (.arr xs) ev' = some ru →
+        Spec.kwUnevaluatedItems sub (Spec.vocab env.draft n) (.arr xs) ev' = some ru →
         Blk (.arr xs) anns (conj2 (some e89) ru) (bArray env rec stack n (ofJson (.arr xs)) anns)) := by
   have hxs' : ∀ x, x ∈ xs → Json.WF x = true := Json.WF_arr hxs
   have hwl : Json.wfList xs = true := by simpa [Json.WF] using hxs
   have hform : bArray env rec stack n (ofJson (.arr xs)) anns =
       Res.bind (bItems env rec stack n (ofJsonList xs) anns) fun a1 =>
-      Res.bind (bContains rec stack n (ofJsonList xs) a1) fun p =>
-      Res.bind (bArrayLimits n (ofJsonList xs) p.2) fun _ =>
+      Res.bind (bContains .d2020 rec stack (Spec.vocab env.draft n) (ofJsonList xs) a1) fun p =>
+      Res.bind (bArrayLimits .d2020 (Spec.vocab env.draft n) (ofJsonList xs) p.2) fun _ =>
       Res.bind (bUnique env n (ofJsonList xs)) fun _ =>
-      bUnevaluatedItems rec stack n (ofJsonList xs) p.1 := by
-    simp only [ofJson, bArray]
+      bUnevaluatedItems .d2020 rec stack (Spec.vocab env.draft n) (ofJsonList xs) p.1 := by
+    simp only [ofJson, bArray, ← bContains_vocab, ← bArrayLimits_vocab, ← bUnevaluatedItems_vocab]
   rw [hform, arrayLimitsOk_arr]
   have b8 := bItems_blk H env n xs hxs' anns h8
   cases r8 with
@@ -452,9 +454,11 @@ theorem bArray_spec (env : VEnv) (hwf : EnvWF env) (n : Node) (xs : List Json)
     simp
   | some e8 =>
     obtain ⟨a1, hb, hx1⟩ := b8
-    obtain ⟨a2, hx2, hK⟩ := contains_limits_spec H n xs hxs' a1 h9
+    obtain ⟨a2, hx2, hK⟩ := contains_limits_spec H (Spec.vocab env.draft n) xs hxs' a1 h9
+    replace hK : ∀ K : Anns → Res Anns, _ = if (r9.isSome && itemsLimOk n xs.length) = true then K a2 else .err := hK
     rw [hb, Res.bind_ok]
-    rw [hK (fun a => Res.bind (bUnique env n (ofJsonList xs)) fun _ => bUnevaluatedItems rec stack n (ofJsonList xs) a)]
+    rw [hK (fun a => Res.bind (bUnique env n (ofJsonList xs)) fun _ =>
+      bUnevaluatedItems .d2020 rec stack (Spec.vocab env.draft n) (ofJsonList xs) a)]
     rw [bUnique_eq env hwf n xs hwl]
     cases r9 with
     | none => simp
@@ -471,7 +475,7 @@ theorem bArray_spec (env : VEnv) (hwf : EnvWF env) (n : Node) (xs : List Json)
           subst he
           have hx12 := Ext_trans hx1 hx2'
           apply Blk_of_Ext hx12
-          apply bUnevaluatedItems_blk H n xs hxs' a2 ev' _ hru
+          apply bUnevaluatedItems_blk H (Spec.vocab env.draft n) xs hxs' a2 ev' _ hru
           intro i hi
           rw [hev i hi, hx12.2 i hi, hm.2 i hi]
           simp only [Spec.Ev.union, List.contains_append]
